@@ -184,6 +184,21 @@ RemoveRange(from, cnt, asc) ==
   /\ Log([act |-> "RemoveRange", from |-> from, cnt |-> cnt, asc |-> asc,
           reply |-> Cardinality({k \in Keys : InSpan(k, from, cnt) /\ work[k] # 0})])
 
+\* of every `period` consecutive keys of the span keep the first `keep`, remove the others. Generator bias
+\* only (the map has no notion of nodes): after an ascending fill every B = 32 leaf holds 31 consecutive
+\* keys, so period 31 / keep 16 trims every leaf inside the span to the minimum fill wherever the span
+\* starts, a short span makes neighbouring leaves unequal, and a long period with keep = period - 1 plucks
+\* single keys, which then underflow minimum leaves (merges) and, above them, inner nodes (borrow / merge).
+InThin(k, from, cnt, period, keep) == InSpan(k, from, cnt) /\ (k - from) % period >= keep
+Thin(from, cnt, period, keep, asc) ==
+  /\ n < MaxLen /\ ~Refused
+  /\ work' = [k \in Keys |-> IF InThin(k, from, cnt, period, keep) THEN 0 ELSE work[k]]
+  /\ dirty' = (dirty \/ work' # work)
+  /\ pend' = IF work' = work THEN pend ELSE Append(pend, <<"t", from, cnt, period, keep, asc>>)
+  /\ UNCHANGED <<saved, exists, first, latest, ver, poisoned, readers, opt, shk>>
+  /\ Log([act |-> "Thin", from |-> from, cnt |-> cnt, period |-> period, keep |-> keep, asc |-> asc,
+          reply |-> Cardinality({k \in Keys : InThin(k, from, cnt, period, keep) /\ work[k] # 0})])
+
 \* ------------------------------------------------------------------ versions
 SaveVersion ==
   /\ n < MaxLen
@@ -389,6 +404,38 @@ NextSim == /\ IF n = 1 /\ NK >= 1000
               ELSE \E j \in kinds : KindAct(j)
            /\ kinds' = {RE(1..NKinds), RE(1..NKinds), RE(1..NKinds), RE(1..NKinds), 30}
 
+\* Shape simulation (C23): a tree of three levels (a full fill of >= 1000 keys), then mostly thinning, plucking
+\* and small re-fills, so that leaves sit at the minimum fill next to fuller ones and inner nodes underflow:
+\* borrow from the right / left inner sibling, inner merges, root collapse; with saves, re-opening, loads and
+\* index reads in between.
+ShapeWrite(j) ==
+  CASE j \in 1..3 -> \* trim the leaves of a long span to the minimum (ascending fill: 31 per leaf, descending: 16 / 17)
+         \E f \in {RE(1..(NK \div 2))}, c \in {RE({200, 400, 600, NK})}, a \in {RE(BOOLEAN)} : Thin(f, c, 31, 16, a)
+    [] j \in 4..5 -> \* one or two leaves only: unequal neighbours
+         \E f \in {RE(Keys)}, c \in {RE({31, 45, 62})}, kp \in {RE({16, 17, 20})}, a \in {RE(BOOLEAN)} : Thin(f, c, 31, kp, a)
+    [] j \in 6..10 -> \* pluck single keys, a few leaves apart
+         \E f \in {RE(Keys)}, c \in {RE({60, 150, 300, 600, NK})}, p \in {RE({17, 33, 47, 64, 95})}, a \in {RE(BOOLEAN)} : Thin(f, c, p, p - 1, a)
+    [] j = 11 -> \E k \in {RE(Keys)} : Remove(k)
+    [] j \in 12..13 -> \E f \in {RE(Keys)}, c \in {RE({5, 17, 33, 90, 250})}, a \in {RE(BOOLEAN)} : RemoveRange(f, c, a)
+    [] j = 14 -> \E f \in {RE(Keys)}, c \in {RE({5, 17, 40, 90})}, s \in {RE(0..5)}, a \in {RE(BOOLEAN)} : Fill(f, c, s, a)
+    [] j = 15 -> \E o \in {RE(1..7)}, d \in {RE({5, 7, 11})}, s \in {RE(0..5)} : Sparse(o, d, s)
+ShapeAct(j) ==
+  CASE j \in 1..15 -> ShapeWrite(j)
+    [] j \in 16..18 -> SaveVersion
+    [] j = 19 -> \E o \in {RE(Opts)} : Reopen(o)
+    [] j = 20 -> \E v \in {RE(exists \cup {0})} : LoadVersion(v)
+    [] j = 21 -> Rollback
+    [] j = 22 -> \E to \in {RE({v \in Vers : v < latest /\ v < ver} \cup {1})} : Prune(to)
+    [] j = 23 -> \E r \in {RE(Rdrs)}, v \in {RE(exists \cup {1})} : GetImmutable(r, v)
+    [] j = 24 -> \E r \in {RE(Rdrs)} : CloseReader(r)
+    [] j \in 25..26 -> \E t \in {RE(Targets \cup {0})}, i \in {RE(0..NK)} : t \in Targets /\ ByIndex(t, i)
+    [] j \in 27..28 -> \E t \in {RE(Targets \cup {0})}, k \in {RE(Keys)} : t \in Targets /\ WithIndex(t, k)
+    [] j = 29 -> \E k \in {RE(Keys)}, v \in {RE(Vals)} : Set(k, v)
+NextShape == /\ IF n = 1
+                THEN \E s \in {RE(0..5)}, a \in {RE(BOOLEAN)} : Fill(1, NK, s, a)
+                ELSE \E j \in kinds : ShapeAct(j)
+             /\ kinds' = {RE(1..15), RE(1..15), RE(1..29), RE(1..29), 29}
+
 \* skeleton generator (C24): hash-relevant calls only
 NextSkel == \E j \in {RE(1..3)} : IF j = 1 /\ dirty THEN SaveVersion ELSE SimWrites
 
@@ -452,6 +499,7 @@ NextReadsF == NextReads /\ UNCHANGED <<scvars, kinds>>
 Finish == n = MaxLen - 1 /\ UNCHANGED svars /\ Log([act |-> "Finish", reply |-> "ok"])
 NextSimF == (IF n < MaxLen - 1 THEN NextSim ELSE (Finish /\ UNCHANGED kinds)) /\ UNCHANGED scvars
 NextSkelF == (IF n < MaxLen - 1 THEN NextSkel ELSE Finish) /\ UNCHANGED <<scvars, kinds>>
+NextShapeF == (IF n < MaxLen - 1 THEN NextShape ELSE (Finish /\ UNCHANGED kinds)) /\ UNCHANGED scvars
 Spec == Init /\ [][NextF]_<<vars, hist, scvars, kinds>>
 
 \* ---------------------------------------------------------------- properties (C23)
